@@ -1686,14 +1686,16 @@ int yylex () {
                   arg = yyp;
                 }
               *yyp = 0;
+              /* a directive on the last line of a file without a newline: put the
+               * end-of-file mark back so that the lexer sees it (every directive, not only #include) */
+              if (c == LEX_EOF)
+                {
+                  *(last_nl = --outptr) = LEX_EOF;
+                  outptr[-1] = '\n';
+                }
               if (!strcmp ("include", yytext))
                 {
                   current_line++;
-                  if (c == LEX_EOF)
-                    {
-                      *(last_nl = --outptr) = LEX_EOF;
-                      outptr[-1] = '\n';
-                    }
                   handle_include (arg, 0);
                   break;
                 }
